@@ -14,7 +14,17 @@ package cache
 //@ spec func isEnt(e *list.Element) bool = allocated(e) && typeis(e.Value, *Entry) && ent(e) != nil && allocated(ent(e))
 //@ spec func wfBase(c *LRUCache) bool = c.items != nil && c.evictList != nil && lwf(c.evictList) && len(c.items) == llen(c.evictList) && forall(i, 0, llen(c.evictList), isEnt(lat(c.evictList, i)) && has(c.items, ent(lat(c.evictList, i)).Key) && c.items[ent(lat(c.evictList, i)).Key] == lat(c.evictList, i)) && forall(k, string, has(c.items, k) ==> lmember(c.evictList, c.items[k]) && ent(c.items[k]).Key == k)
 //@ spec func wfCap(c *LRUCache) bool = c.capacity > 0 ==> llen(c.evictList) <= c.capacity
-//@ spec func wf(c *LRUCache) bool = wfBase(c) && wfCap(c)
+// byte accounting: currentSize is the sum of the sizes of the entries in the list (lsum, the ghost sum of the list
+// model, with esize(e) the size credited to element e), every entry's size is non-negative, and - the property - the
+// sum respects the configured byte limit
+//@ spec func wfSize(c *LRUCache) bool = c.currentSize == lsum(c.evictList) && sumwf(c.evictList) && forall(i, 0, llen(c.evictList), esize(lat(c.evictList, i)) == ent(lat(c.evictList, i)).Size && ent(lat(c.evictList, i)).Size >= 0)
+//@ spec func wfMax(c *LRUCache) bool = c.maxSize > 0 ==> c.currentSize <= c.maxSize
+//@ spec func wf(c *LRUCache) bool = wfBase(c) && wfCap(c) && wfSize(c) && wfMax(c)
+
+//@ func estimateSize
+//@   strict
+//@   modifies nothing
+//@   ensures result >= 0
 //@ spec func lk(c *LRUCache) *sync.RWMutex = addr(c.mu)
 
 //@ monitor LRUCache.mu guards items, evictList, currentSize invariant wf(self)
@@ -24,20 +34,23 @@ package cache
 //@   modifies nothing
 
 //@ func (*LRUCache).removeElement
-//@   requires c != nil && elem != nil && heldw(lk(c)) && wfBase(c) && lmember(c.evictList, elem)
+//@   mathint
+//@   requires c != nil && elem != nil && heldw(lk(c)) && wfBase(c) && wfSize(c) && lmember(c.evictList, elem)
 //@   dyncall modifies nothing
-//@   modifies mapof(c.items), c.currentSize, c.stats, llen(c.evictList), lat(c.evictList), lidx(c.evictList)
-//@   ensures wfBase(c) && llen(c.evictList) == old(llen(c.evictList)) - 1
+//@   modifies mapof(c.items), c.currentSize, c.stats, llen(c.evictList), lat(c.evictList), lidx(c.evictList), lsum(c.evictList)
+//@   ensures wfBase(c) && wfSize(c) && llen(c.evictList) == old(llen(c.evictList)) - 1
+//@   ensures c.currentSize == old(c.currentSize) - esize(elem) && esize(elem) >= 0
 //@   ensures !has(c.items, old(ent(elem).Key))
 //@   ensures forall(k, string, k != old(ent(elem).Key) ==> has(c.items, k) == old(has(c.items, k)) && c.items[k] == old(c.items[k]))
 //@   ensures forall(i, 0, old(lidx(c.evictList, elem)), lat(c.evictList, i) == old(lat(c.evictList, i)))
 //@   ensures forall(i, old(lidx(c.evictList, elem)), llen(c.evictList), lat(c.evictList, i) == old(lat(c.evictList, i + 1)))
 
 //@ func (*LRUCache).evictOldest
-//@   requires c != nil && heldw(lk(c)) && wfBase(c)
+//@   mathint
+//@   requires c != nil && heldw(lk(c)) && wfBase(c) && wfSize(c)
 //@   dyncall modifies nothing
-//@   modifies mapof(c.items), c.currentSize, c.stats, llen(c.evictList), lat(c.evictList), lidx(c.evictList)
-//@   ensures wfBase(c)
+//@   modifies mapof(c.items), c.currentSize, c.stats, llen(c.evictList), lat(c.evictList), lidx(c.evictList), lsum(c.evictList)
+//@   ensures wfBase(c) && wfSize(c) && c.currentSize <= old(c.currentSize)
 //@   ensures old(llen(c.evictList)) == 0 ==> llen(c.evictList) == 0
 //@   ensures old(llen(c.evictList)) > 0 ==> llen(c.evictList) == old(llen(c.evictList)) - 1
 //@   ensures old(llen(c.evictList)) > 0 ==> !has(c.items, old(ent(lat(c.evictList, llen(c.evictList) - 1)).Key))
@@ -65,6 +78,7 @@ package cache
 // (the survivors are a prefix of the old recency order); the eviction loop terminates.
 //@ func (*LRUCache).Set
 //@   requires c != nil
+//@   mathint
 //@   dyncall modifies nothing
 //@   ensures result == nil
 //@   check c.capacity > 0 && !(c.maxSize > 0 && size > c.maxSize) ==> has(c.items, key) && ent(c.items[key]).Key == key && ent(c.items[key]).Value == value && lat(c.evictList, 0) == c.items[key]
@@ -74,14 +88,22 @@ package cache
 //@   check ite(ttl == 0, c.ttl, ttl) > 0 ==> old(clocknow()) + ite(ttl == 0, c.ttl, ttl) <= expiresAt && expiresAt <= clocknow() + ite(ttl == 0, c.ttl, ttl)
 //@   ensures forall(k, string, k != key && has(c.items, k) ==> atlock(has(c.items, k)) && c.items[k] == atlock(c.items[k]))
 //@   ensures !atlock(has(c.items, key)) && has(c.items, key) ==> forall(i, 1, llen(c.evictList), lat(c.evictList, i) == atlock(lat(c.evictList, i - 1)))
-//@   loop 1 invariant heldw(lk(c)) && wfBase(c) && !has(c.items, key) && c.capacity > 0 && entry != nil && fresh(entry)
-//@   loop 1 invariant llen(c.evictList) <= atlock(llen(c.evictList)) && forall(i, 0, llen(c.evictList), lat(c.evictList, i) == atlock(lat(c.evictList, i)))
-//@   loop 1 invariant forall(k, string, has(c.items, k) ==> atlock(has(c.items, k)) && c.items[k] == atlock(c.items[k]))
+//@   loop 2 invariant heldw(lk(c)) && wfBase(c) && wfSize(c) && !has(c.items, key) && c.capacity > 0 && entry != nil && fresh(entry) && entry.Size == size && size >= 0 && (c.maxSize > 0 ==> size <= c.maxSize)
+//@   loop 2 invariant llen(c.evictList) <= atlock(llen(c.evictList)) && forall(i, 0, llen(c.evictList), lat(c.evictList, i) == atlock(lat(c.evictList, i)))
+//@   loop 2 invariant forall(k, string, has(c.items, k) ==> atlock(has(c.items, k)) && c.items[k] == atlock(c.items[k]))
+//@   loop 2 decreases llen(c.evictList)
+// in-place update of an existing key: the element keeps its place in the list, its credited size becomes the new
+// entry's (relabelling rule of the sum model: the sum changes by the difference), and the cold end is evicted until
+// the byte budget holds again - the updated element stays at the front
+//@   ghostat "elem.Value = entry" esize(elem) := size; lsum(c.evictList) := lsum(c.evictList) - esize(elem) + size
+//@   loop 1 invariant heldw(lk(c)) && wfBase(c) && wfSize(c) && wfCap(c) && elem != nil && has(c.items, key) && c.items[key] == elem && lat(c.evictList, 0) == elem && llen(c.evictList) >= 1 && ent(elem) == entry && entry.Size == size && entry.Key == key && entry.Value == value && entry.ExpiresAt == expiresAt && (c.maxSize > 0 ==> size <= c.maxSize) && c.capacity > 0
+//@   loop 1 invariant forall(k, string, k != key && has(c.items, k) ==> atlock(has(c.items, k)) && c.items[k] == atlock(c.items[k]))
 //@   loop 1 decreases llen(c.evictList)
 
 // SetWithTags: same contract as Set.
 //@ func (*LRUCache).SetWithTags
 //@   requires c != nil
+//@   mathint
 //@   dyncall modifies nothing
 //@   ensures result == nil
 //@   check c.capacity > 0 && !(c.maxSize > 0 && size > c.maxSize) ==> has(c.items, key) && ent(c.items[key]).Key == key && ent(c.items[key]).Value == value && lat(c.evictList, 0) == c.items[key]
@@ -91,9 +113,16 @@ package cache
 //@   check ite(ttl == 0, c.ttl, ttl) > 0 ==> old(clocknow()) + ite(ttl == 0, c.ttl, ttl) <= expiresAt && expiresAt <= clocknow() + ite(ttl == 0, c.ttl, ttl)
 //@   ensures forall(k, string, k != key && has(c.items, k) ==> atlock(has(c.items, k)) && c.items[k] == atlock(c.items[k]))
 //@   ensures !atlock(has(c.items, key)) && has(c.items, key) ==> forall(i, 1, llen(c.evictList), lat(c.evictList, i) == atlock(lat(c.evictList, i - 1)))
-//@   loop 1 invariant heldw(lk(c)) && wfBase(c) && !has(c.items, key) && c.capacity > 0 && entry != nil && fresh(entry)
-//@   loop 1 invariant llen(c.evictList) <= atlock(llen(c.evictList)) && forall(i, 0, llen(c.evictList), lat(c.evictList, i) == atlock(lat(c.evictList, i)))
-//@   loop 1 invariant forall(k, string, has(c.items, k) ==> atlock(has(c.items, k)) && c.items[k] == atlock(c.items[k]))
+//@   loop 2 invariant heldw(lk(c)) && wfBase(c) && wfSize(c) && !has(c.items, key) && c.capacity > 0 && entry != nil && fresh(entry) && entry.Size == size && size >= 0 && (c.maxSize > 0 ==> size <= c.maxSize)
+//@   loop 2 invariant llen(c.evictList) <= atlock(llen(c.evictList)) && forall(i, 0, llen(c.evictList), lat(c.evictList, i) == atlock(lat(c.evictList, i)))
+//@   loop 2 invariant forall(k, string, has(c.items, k) ==> atlock(has(c.items, k)) && c.items[k] == atlock(c.items[k]))
+//@   loop 2 decreases llen(c.evictList)
+// in-place update of an existing key: the element keeps its place in the list, its credited size becomes the new
+// entry's (relabelling rule of the sum model: the sum changes by the difference), and the cold end is evicted until
+// the byte budget holds again - the updated element stays at the front
+//@   ghostat "elem.Value = entry" esize(elem) := size; lsum(c.evictList) := lsum(c.evictList) - esize(elem) + size
+//@   loop 1 invariant heldw(lk(c)) && wfBase(c) && wfSize(c) && wfCap(c) && elem != nil && has(c.items, key) && c.items[key] == elem && lat(c.evictList, 0) == elem && llen(c.evictList) >= 1 && ent(elem) == entry && entry.Size == size && entry.Key == key && entry.Value == value && entry.ExpiresAt == expiresAt && (c.maxSize > 0 ==> size <= c.maxSize) && c.capacity > 0
+//@   loop 1 invariant forall(k, string, k != key && has(c.items, k) ==> atlock(has(c.items, k)) && c.items[k] == atlock(c.items[k]))
 //@   loop 1 decreases llen(c.evictList)
 
 // DeleteByTag: removes exactly the entries carrying the tag (each once), keeps the others
@@ -114,10 +143,10 @@ package cache
 //@   loop 3 invariant forall(k, string, has(c.items, k) && hasTag(ent(c.items[k]), tag) ==> exists(j, rangeidx, len(toRemove), toRemove[j] == c.items[k]))
 //@   loop 3 invariant forall(k, string, atlock(has(c.items, k)) && !has(c.items, k) ==> hasTag(ent(atlock(c.items[k])), tag))
 //@   loop 3 invariant forall(j, 0, len(toRemove), hasTag(ent(toRemove[j]), tag))
-//@   loop 1 invariant heldw(lk(c)) && wfBase(c)
+//@   loop 1 invariant heldw(lk(c)) && wfBase(c) && wfSize(c) && wfMax(c)
 //@   loop 1 invariant forall(j, 0, len(toRemove), toRemove[j] != nil && lmember(c.evictList, toRemove[j]) && visited(1, ent(toRemove[j]).Key) && has(c.items, ent(toRemove[j]).Key) && c.items[ent(toRemove[j]).Key] == toRemove[j])
 //@   loop 1 invariant forall(i, 0, len(toRemove), forall(j, 0, i, toRemove[i] != toRemove[j]))
-//@   loop 3 invariant heldw(lk(c)) && wfBase(c) && llen(c.evictList) == atlock(llen(c.evictList)) - rangeidx
+//@   loop 3 invariant heldw(lk(c)) && wfBase(c) && wfSize(c) && wfMax(c) && llen(c.evictList) == atlock(llen(c.evictList)) - rangeidx
 //@   loop 3 invariant forall(j, rangeidx, len(toRemove), toRemove[j] != nil && lmember(c.evictList, toRemove[j]))
 //@   loop 3 invariant forall(i, 0, len(toRemove), forall(j, 0, i, toRemove[i] != toRemove[j]))
 //@   loop 3 invariant forall(k, string, has(c.items, k) ==> atlock(has(c.items, k)) && c.items[k] == atlock(c.items[k]))
@@ -127,10 +156,10 @@ package cache
 //@ func (*LRUCache).cleanup
 //@   requires c != nil
 //@   dyncall modifies nothing
-//@   loop 2 invariant heldw(lk(c)) && wfBase(c) && wfCap(c)
+//@   loop 2 invariant heldw(lk(c)) && wfBase(c) && wfCap(c) && wfSize(c) && wfMax(c)
 //@   loop 2 invariant forall(j, 0, len(expired), expired[j] != nil && lmember(c.evictList, expired[j]) && visited(1, ent(expired[j]).Key) && has(c.items, ent(expired[j]).Key) && c.items[ent(expired[j]).Key] == expired[j])
 //@   loop 2 invariant forall(i, 0, len(expired), forall(j, 0, i, expired[i] != expired[j]))
-//@   loop 3 invariant heldw(lk(c)) && wfBase(c) && wfCap(c)
+//@   loop 3 invariant heldw(lk(c)) && wfBase(c) && wfCap(c) && wfSize(c) && wfMax(c)
 //@   loop 3 invariant forall(j, rangeidx, len(expired), expired[j] != nil && lmember(c.evictList, expired[j]))
 //@   loop 3 invariant forall(i, 0, len(expired), forall(j, 0, i, expired[i] != expired[j]))
 //@   loop 3 invariant forall(k, string, has(c.items, k) ==> atlock(has(c.items, k)) && c.items[k] == atlock(c.items[k]))
